@@ -76,7 +76,7 @@ CHECKS = {
         "digits per the two-scan rule; component combination is XOR (permutation-invariant, duplicates cancel) and renders "
         "as 32 hex digits (Props/C14.lean). Tied to /repo by differential execution with real keys found for second-scan "
         "classes 0..2(3), chosen ciphertexts through a cipher stub for classes 3..4, key-component lists, KCV and encrypted "
-        "ZMK, all against a from-scratch DES/3DES reference.",
+        "ZMK, all against a from-scratch DES/3DES reference. In addition a SOURCE TIE: harness/pytrans.py translates the current Python text of pinblock._get_tsp into Lean (Gen/Src.lean) on every run and lean/Cardutil/SrcTie/Misc.lean proves, for all inputs, that the translation equals the model (and restates the property for the translated code); when the source changes so that this no longer checks, the check runs its thorough generators before answering (the correspondence remains the deciding tie).",
         "Trusted: as C13; the cipher stub replaces `Cipher` inside cardutil.pinblock only for the chosen-ciphertext cases.",
         "DESIGN.md §8 C14"),
     'C15': (
@@ -85,7 +85,7 @@ CHECKS = {
         "validates, the code's validation is exactly Luhn validity, every single-digit change and every adjacent "
         "transposition other than 0/9 of a valid number is rejected (Props/C15.lean). Tied to /repo by exhaustive "
         "enumeration of all digit strings up to length 4 (quick) / 6 (thorough) with all edits, sampled long strings with "
-        "separators, each run in-process and in a `python -O` subprocess against the same model answer.",
+        "separators, each run in-process and in a `python -O` subprocess against the same model answer. In addition a SOURCE TIE: harness/pytrans.py translates the current Python text of card.calculate_check_digit / validate_check_digit / add_check_digit into Lean (Gen/Src.lean) on every run and lean/Cardutil/SrcTie/Card.lean proves, for all inputs, that the translation equals the model (and restates the property for the translated code); when the source changes so that this no longer checks, the check runs its thorough generators before answering (the correspondence remains the deciding tie).",
         "Trusted: Lean kernel; standard axioms; model restricted to ASCII digits; interpreter mode exercised, not modelled.",
         "DESIGN.md §8 C15"),
     'C16': (
@@ -94,7 +94,7 @@ CHECKS = {
         "has the same length, the same first six and last four characters and the mask character everywhere else, and is a "
         "function of those ten characters and the length only (Props/C16.lean). Tied to /repo by differential execution over "
         "every length 0..40 x 20 mask characters plus decodes under masking configurations (oracle: clear PAN absent from "
-        "every returned value).",
+        "every returned value). In addition a SOURCE TIE: harness/pytrans.py translates the current Python text of card.mask and iso8583._pan_prefix into Lean (Gen/Src.lean) on every run and lean/Cardutil/SrcTie/Card and Misc.lean proves, for all inputs, that the translation equals the model (and restates the property for the translated code); when the source changes so that this no longer checks, the check runs its thorough generators before answering (the correspondence remains the deciding tie).",
         "Trusted: Lean kernel; standard axioms; hand-written model of mask/_pan_prefix validated by correspondence.",
         "DESIGN.md §8 C16"),
     'C06': (
@@ -192,7 +192,7 @@ CHECKS = {
         "bytes 1012-1013 are 0x40 0x40; inputs under 24 bytes, with a first length above the maximum, or with an "
         "unconfigured bit are invalid with that reason; ASCII / EBCDIC digit MTIs give latin1 / cp037 by decide on the "
         "isnumeric tables measured each run (Props/C17.lean). Tied to /repo by writer output for block counts 1..10,12,20 x "
-        "6 codecs x 2 formats, stream lengths aligned to block boundaries, and the invalid classes at their boundaries.",
+        "6 codecs x 2 formats, stream lengths aligned to block boundaries, and the invalid classes at their boundaries. In addition a SOURCE TIE: harness/pytrans.py translates the current Python text of mciipm.block_1014_check and encoding_check into Lean (Gen/Src.lean) on every run and lean/Cardutil/SrcTie/Info.lean proves, for all inputs, that the translation equals the model (and restates the property for the translated code); when the source changes so that this no longer checks, the check runs its thorough generators before answering (the correspondence remains the deciding tie).",
         "Trusted: as C03/C04; the link 'writer output has a valid first length/bitmap/MTI' rests on C02's layout theorem plus correspondence.",
         "DESIGN.md §8 C17"),
     'C19': (
